@@ -1,7 +1,7 @@
 """C30 - a program with a syntax error has no effect; statements take effect in program order."""
 import re
 from ..core import CheckError, op_local
-from . import common, dur, c28
+from . import common, dur, c28, authrules
 
 QJ = "protocol::handler::QueryJob::execute"
 PARSE = "statement::parse_statement"
@@ -127,4 +127,41 @@ def run(F, ctx):
     ctx.site("line loops iterate Lines (or Enumerate<Lines>) directly", f.where(), ok=ok, loops=len(nexts))
     if not ok:
         ctx.violation(QJ + ":R-C30-d:reordered", "statements are no longer taken from str::lines() in program order", f.where())
+    ctx.end_rule()
+
+
+    # ---- e: the pre-executor paths of execute_program
+    authrules.rule_must_pass(F, ctx, "C30")
+    authrules.rule_no_bypass(F, ctx)
+    ctx.rule("R-C30-e", "statement-intercepting paths of execute_program act on one segment of the program, like the executor", floor=3)
+    e = F.fn(authrules.EP)
+    prog = e.local_named("program")
+    whole = e.derive({prog}, through_calls=True, stop_calls=[_LINES, JOIN]) if prog is not None else set()
+    seg = set()
+    for c in e.normal_calls():
+        if _LINES.match(c.static or ""):
+            seg |= e.derive({c.dst["l"]}, through_calls=True)
+    sinks = {c.bb for c in authrules.sinks_in(F, e) if not re.search(r"query_program", c.resolved or "")}
+    bad = []
+    n = 0
+    for p in [c for c in e.normal_calls() if c.resolved == PARSE]:
+        res = e.derive({p.dst["l"]}, through_calls=False)
+        guards = False
+        for (bb, adt, pl, mm, other) in e.enum_switches("std::result::Result"):
+            if pl["l"] in res and "Ok" in mm:
+                region = e.reachable_from([mm["Ok"]], stop={mm.get("Err", other)})
+                if sinks & region and any(e.dominates(mm["Ok"], s_) for s_ in sinks):
+                    guards = True
+        if not guards:
+            continue
+        n += 1
+        a0 = op_local(p.args[0])
+        is_whole = a0 in whole and a0 not in seg
+        ctx.site("intercept parse at line %s takes %s" % (p.line, "the whole program text" if is_whole else "one segment"), p.where(), ok=not is_whole)
+        if is_whole:
+            bad.append(p)
+    if n < 2:
+        raise CheckError("execute_program: only %d statement-intercepting parses found" % n)
+    if bad:
+        ctx.violation(authrules.EP + ":R-C30-e:intercept-parses-whole-program", "execute_program's intercept paths parse the whole program text as one statement (%d sites) and return after serving it: the meta-command parser ignores surplus text, so for `.user drop bob\\n+edge[(1, 2)]` the first statement is applied and the following lines are silently dropped" % len(bad), bad[0].where())
     ctx.end_rule()
